@@ -98,10 +98,113 @@ def signature(case, ck, log, fault):
 
 
 def plan(tier, seed):
-    return F.std_plan(tier, seed, 4800, 50000)
+    return F.std_plan(tier, seed, 4800, 50000) + [{"untouched": True, "seed": seed, "count": 200 if tier == "quick" else 4000}]
+
+
+UNTOUCHED_SRC = '''
+import enum
+
+class Level(enum.IntEnum):
+    one = 1
+    two = 2
+    three = 3
+
+class Row:
+    """property-backed record: every write to the state column is counted"""
+    def __init__(self, stored):
+        self._stored = stored
+        self.writes = []
+    @property
+    def state(self):
+        return self._stored
+    @state.setter
+    def state(self, v):
+        self.writes.append(v)
+        self._stored = v
+
+class M(StateMachine):
+    a = State(value={va}, initial=True)
+    b = State(value={vb})
+    c = State(value={vc}, final=True)
+    go = a.to(b) | b.to(c)
+    def on_enter_state(self, *args, **kwargs):
+        LOG.append("enter")
+    {a}def on_go(self, *args, **kwargs):
+        LOG.append("on_go")
+'''
+
+
+def run_untouched(desc):
+    """A stored value that EQUALS a state's value without being the same object (2.0 for 2, True for 1,
+    an IntEnum member for an int, a string built at run time) is resumed untouched: no write to the
+    model, the very object stays stored, no callback runs; the first event then works as usual."""
+    import asyncio
+    import random
+    import warnings
+
+    from statemachine import State, StateMachine
+
+    rng = random.Random(desc["seed"] * 31 + 7)
+    counters = {"untouched_resumes": 0}
+    violations, sigs = [], set()
+    for _ in range(desc["count"]):
+        kind = rng.choice(["int", "str", "intenum"])
+        is_async = rng.random() < 0.3
+        if kind == "int":
+            vals = ["1", "2", "3"]
+            mk = lambda i: rng.choice([float(i), True if i == 1 else float(i), i + 0.0])  # noqa: E731
+        elif kind == "str":
+            vals = ["'draft'", "'in review'", "'done'"]
+            mk = lambda i: "".join(list(["draft", "in review", "done"][i - 1]))  # noqa: E731  (a new, equal string object)
+        else:
+            vals = ["1", "2", "3"]
+            mk = None
+        log = []
+        ns = {"State": State, "StateMachine": StateMachine, "LOG": log, "__name__": "vmon_c11u"}
+        src = UNTOUCHED_SRC.format(va=vals[0], vb=vals[1], vc=vals[2], a="async " if is_async else "")
+        with warnings.catch_warnings():
+            warnings.simplefilter("ignore")
+            exec(compile(src, "<c11-untouched>", "exec"), ns)
+            idx = rng.choice([1, 2, 3])
+            stored = mk(idx) if mk else ns["Level"](idx)
+            row = ns["Row"](stored)
+            kw = {}
+            if rng.random() < 0.3:
+                kw["start_value"] = eval(vals[rng.randrange(3)])  # noqa: S307
+            problems = []
+            try:
+                sm = ns["M"](row, **kw)
+                if rng.random() < 0.5:
+                    res = sm.activate_initial_state()
+                    if asyncio.iscoroutine(res):
+                        asyncio.run(res)
+                if row.writes:
+                    problems.append(f"the model was written to: {row.writes!r}")
+                if row._stored is not stored:
+                    problems.append(f"stored object replaced: {row._stored!r} (was {stored!r})")
+                if log:
+                    problems.append(f"callbacks ran at construction: {log}")
+                if sm.current_state.id != "abc"[idx - 1]:
+                    problems.append(f"current_state {sm.current_state.id} != {'abc'[idx - 1]}")
+                if idx < 3:
+                    sm.send("go")
+                    if sm.current_state.id != "abc"[idx]:
+                        problems.append(f"after go: {sm.current_state.id}")
+            except Exception as err:  # noqa: BLE001
+                problems.append(f"{type(err).__name__}: {err}"[:200])
+        counters["untouched_resumes"] += 1
+        sigs.add(F.h((kind, is_async, idx, type(stored).__name__, bool(kw))))
+        if problems:
+            violations.append({"mechanism": "equal-but-not-identical-stored-value", "rule": "C11.resume-untouched",
+                               "detail": f"stored {stored!r} ({type(stored).__name__}) for state value {vals[idx - 1]}: " + "; ".join(problems),
+                               "witness": {"source": src, "stored": repr(stored), "kwargs": {k: repr(v) for k, v in kw.items()}}})
+    return {"evaluations": counters["untouched_resumes"], "signatures": sorted(sigs), "samples": [], "counters": counters,
+            "violations": violations[:2]}
 
 
 def run_shard(desc):
+    if desc.get("untouched"):
+        return run_untouched(desc)
     return F.explore(desc, make_case, owns, signature)
 
 
